@@ -2,6 +2,7 @@ package hsim
 
 import (
 	"fmt"
+	"google.golang.org/protobuf/types/known/timestamppb"
 	"sort"
 	"strings"
 	"testing"
@@ -37,6 +38,10 @@ func runC18(t *testing.T, seed uint64, tier string) (*Scenario, *Result) {
 	joined := r.Bool(0.9)
 	behaviour := []string{"honest", "fast", "dup", "unknown", "replay_after", "restart", "second_run"}[r.Intn(7)]
 	dupRound := 1 + r.Intn(50)
+	// the client's clock (the timestamps it writes) may be off: latencies are the server's
+	// business, measured on the server's clock
+	skew := []time.Duration{0, 0, 0, -3 * time.Second, 3 * time.Second, -time.Hour, time.Hour, -946684000 * time.Second}[r.Intn(8)]
+	stamp := func() *timestamppb.Timestamp { return timestamppb.New(time.Now().Add(skew)) }
 	sc.Steps = []Step{{Conn: 0, Op: "signed_latency", N: n, Name: wallet, Variant: behaviour}}
 	valid := joined && n >= 3 && n <= 50 && wallet != ""
 	stepMS := 10
@@ -73,7 +78,7 @@ func runC18(t *testing.T, seed uint64, tier string) (*Scenario, *Result) {
 				if c.Ended() {
 					return
 				}
-				c.Send(&hagallpb.Response{Type: hagallpb.MsgType_MSG_TYPE_PING_RESPONSE, Timestamp: now(), RequestId: id})
+				c.Send(&hagallpb.Response{Type: hagallpb.MsgType_MSG_TYPE_PING_RESPONSE, Timestamp: stamp(), RequestId: id})
 			})
 		}
 		restarted := false
@@ -98,7 +103,7 @@ func runC18(t *testing.T, seed uint64, tier string) (*Scenario, *Result) {
 					pings = nil
 					rid = c.NextReqID()
 					curN = 3 + dupRound%5
-					c.Send(&hagallpb.SignedLatencyRequest{Type: hagallpb.MsgType_MSG_TYPE_SIGNED_LATENCY_REQUEST, Timestamp: now(), RequestId: rid, IterationCount: uint32(curN), WalletAddress: wallet})
+					c.Send(&hagallpb.SignedLatencyRequest{Type: hagallpb.MsgType_MSG_TYPE_SIGNED_LATENCY_REQUEST, Timestamp: stamp(), RequestId: rid, IterationCount: uint32(curN), WalletAddress: wallet})
 					rn.res.Triggers["latency_restart"]++
 					return
 				}
@@ -122,7 +127,7 @@ func runC18(t *testing.T, seed uint64, tier string) (*Scenario, *Result) {
 				refused = append(refused, x.RequestId)
 			}
 		}
-		c.Send(&hagallpb.SignedLatencyRequest{Type: hagallpb.MsgType_MSG_TYPE_SIGNED_LATENCY_REQUEST, Timestamp: now(), RequestId: rid, IterationCount: uint32(n), WalletAddress: wallet})
+		c.Send(&hagallpb.SignedLatencyRequest{Type: hagallpb.MsgType_MSG_TYPE_SIGNED_LATENCY_REQUEST, Timestamp: stamp(), RequestId: rid, IterationCount: uint32(n), WalletAddress: wallet})
 		rn.res.Triggers["latency_requests"]++
 		// long enough for 50 rounds of up to 500 ms each
 		w.sim.RunFor(20 * time.Second)
@@ -130,7 +135,7 @@ func runC18(t *testing.T, seed uint64, tier string) (*Scenario, *Result) {
 		if behaviour == "replay_after" && valid && len(pings) > 0 {
 			old := pings[dupRound%len(pings)]
 			before := len(pings)
-			c.Send(&hagallpb.Response{Type: hagallpb.MsgType_MSG_TYPE_PING_RESPONSE, Timestamp: now(), RequestId: old.id})
+			c.Send(&hagallpb.Response{Type: hagallpb.MsgType_MSG_TYPE_PING_RESPONSE, Timestamp: stamp(), RequestId: old.id})
 			rn.res.Triggers["latency_replay_after"]++
 			w.sim.RunFor(2 * time.Second)
 			rn.quiesce()
@@ -152,7 +157,7 @@ func runC18(t *testing.T, seed uint64, tier string) (*Scenario, *Result) {
 			rid = c.NextReqID()
 			pings, finals, count = nil, nil, 0
 			curN = 3 + dupRound%6
-			c.Send(&hagallpb.SignedLatencyRequest{Type: hagallpb.MsgType_MSG_TYPE_SIGNED_LATENCY_REQUEST, Timestamp: now(), RequestId: rid, IterationCount: uint32(curN), WalletAddress: wallet})
+			c.Send(&hagallpb.SignedLatencyRequest{Type: hagallpb.MsgType_MSG_TYPE_SIGNED_LATENCY_REQUEST, Timestamp: stamp(), RequestId: rid, IterationCount: uint32(curN), WalletAddress: wallet})
 			rn.res.Triggers["latency_second_run"]++
 			w.sim.RunFor(10 * time.Second)
 			rn.quiesce()
